@@ -40,6 +40,9 @@ LEXICAL = {
     "bad-index": "lda 5,q",
     "unterminated-text": ".text 'abc",
     "unterminated-ascii": ".ascii 'abc",
+    "unterminated-backslash": ".ascii 'abc\\",       # the string ends with a backslash
+    "unterminated-escaped-quote": ".text 'ab\\'",      # the only closing quote is escaped
+    "unterminated-with-semicolon": ".ascii 'a;b",
 }
 
 
@@ -101,7 +104,7 @@ def _called_macros(ir):
     return called
 
 
-def insertion_points(ir):
+def insertion_points(ir, loops=False):
     """[(steps, index, certain)] — certain: a statement there is certainly assembled"""
     pts = []
     called = _called_macros(ir)
@@ -118,7 +121,8 @@ def insertion_points(ir):
                 # position itself is unconditional
                 go(st["b"], steps + ((i, "b"),), certain and st["n"] in called)
             elif k == "for":
-                go(st["b"], steps + ((i, "b"),), False)
+                lit = st["lo"][0] == "lit" and st["hi"][0] == "lit" and st["hi"][1] > st["lo"][1]
+                go(st["b"], steps + ((i, "b"),), certain and loops and lit)
             elif k == "if":
                 taken = st["c"][0] == "lit" and st["c"][1] != 0
                 go(st["t"], steps + ((i, "t"),), certain and taken)
